@@ -83,3 +83,8 @@ func SetConfgenYield(f func(site string, key string)) { confgen.VerifYield = f }
 
 // SqueezeText is xproto.SqueezeText.
 func SqueezeText(text string) string { return xproto.SqueezeText(text) }
+
+// PrepareOutdir is protogen's prepareOutdir (stale .proto removal in the proto output dir).
+func PrepareOutdir(outdir string, importFiles []string, delExisted bool) error {
+	return protogen.VerifPrepareOutdir(outdir, importFiles, delExisted)
+}
